@@ -36,6 +36,9 @@ const (
 	tyU32  // a uint32, carried as a uint64 below 2^32; only loaded, compared and used as a constant
 	tyKeys // map[string]struct{} used as a set of keys
 	tyFunc // a function-valued parameter (callback)
+	tyI64s // []int64
+	tyU64s // []uint64
+	tyF64s // []float64 (as bit patterns)
 )
 
 // functions translated, in dependency order (callees first is not required)
@@ -48,6 +51,7 @@ var goSrcFuncs = []string{
 	"Array.ForEach", "Array.DeleteElems", "Array.FirstType", "Object.ForEach", "Object.DeleteElems",
 	"isValidTrueAtom", "isValidFalseAtom", "isValidNullAtom", "parseNumber",
 	"Iter.MarshalJSONBuffer", "escapeBytes", "Array.MarshalJSONBuffer", "ParsedJson.ForEach",
+	"Array.AsFloat", "Array.AsInteger", "Array.AsUint64",
 }
 
 type goBlock struct {
@@ -158,8 +162,17 @@ func tyOfTypeExpr(e ast.Expr) gty {
 		}
 	case *ast.ArrayType:
 		if t.Len == nil {
-			if id, ok := t.Elt.(*ast.Ident); ok && id.Name == "byte" {
-				return tyBytes
+			if id, ok := t.Elt.(*ast.Ident); ok {
+				switch id.Name {
+				case "byte":
+					return tyBytes
+				case "int64":
+					return tyI64s
+				case "uint64":
+					return tyU64s
+				case "float64":
+					return tyF64s
+				}
 			}
 		}
 	case *ast.MapType:
@@ -339,6 +352,12 @@ func (t *gsTr) expr(e ast.Expr, want gty) (string, gty) {
 			if want == tyBytes {
 				return ".nilB", tyBytes
 			}
+			if want == tyI64s {
+				return ".nilI", tyI64s
+			}
+			if want == tyU64s || want == tyF64s {
+				return ".nilU", want
+			}
 			return "(.bool false /- nil -/)", tyErr
 		}
 		if ty, ok := t.locals[x.Name]; ok {
@@ -515,6 +534,30 @@ func (t *gsTr) expr(e ast.Expr, want gty) (string, gty) {
 			// append(make([]T, 0, n), y...) is a copy of y
 			if mk, ok := x.Args[0].(*ast.CallExpr); ok && len(mk.Args) == 3 && nows(src(mk.Fun)) == "make" && nows(src(mk.Args[1])) == "0" {
 				return t.expr(x.Args[1], tyBytes)
+			}
+		}
+		if id, ok := x.Fun.(*ast.Ident); ok && id.Name == "make" && len(x.Args) == 3 && nows(src(x.Args[1])) == "0" {
+			// make([]T, 0, n): an empty slice; the capacity is evaluated (it may not be negative) and otherwise irrelevant
+			switch tyOfTypeExpr(x.Args[0]) {
+			case tyI64s:
+				return ".nilI", tyI64s
+			case tyU64s:
+				return ".nilU", tyU64s
+			case tyF64s:
+				return ".nilU", tyF64s
+			}
+		}
+		if id, ok := x.Fun.(*ast.Ident); ok && id.Name == "append" && len(x.Args) == 2 && !x.Ellipsis.IsValid() {
+			if a, aty := t.exprTry(x.Args[0]); aty == tyI64s || aty == tyU64s || aty == tyF64s {
+				elTy := map[gty]gty{tyI64s: tyInt, tyU64s: tyU64, tyF64s: tyF64}[aty]
+				b, bty := t.expr(x.Args[1], elTy)
+				if bty != elTy {
+					gsDie(e, "appended element type")
+				}
+				if aty == tyI64s {
+					return fmt.Sprintf("(.pushI %s %s)", a, b), aty
+				}
+				return fmt.Sprintf("(.pushU %s %s)", a, b), aty
 			}
 		}
 		if id, ok := x.Fun.(*ast.Ident); ok && id.Name == "append" && len(x.Args) >= 2 && !x.Ellipsis.IsValid() {
@@ -778,7 +821,7 @@ func isUntypedConst(t *gsTr, e ast.Expr) bool {
 
 var binNames = map[token.Token]string{
 	token.ADD: ".add", token.SUB: ".sub", token.AND: ".and", token.OR: ".or", token.SHR: ".shr", token.SHL: ".shl", token.XOR: ".xor",
-	token.EQL: ".eq", token.NEQ: ".ne", token.LSS: ".lt", token.LEQ: ".le", token.GTR: ".gt", token.GEQ: ".ge",
+	token.QUO: ".div", token.EQL: ".eq", token.NEQ: ".ne", token.LSS: ".lt", token.LEQ: ".le", token.GTR: ".gt", token.GEQ: ".ge",
 }
 
 func (t *gsTr) binary(x *ast.BinaryExpr, want gty) (string, gty) {
@@ -1351,7 +1394,7 @@ func (t *gsTr) stmt0(s ast.Stmt, ind string) string {
 				dw = tyInt // the default type of an untyped integer constant
 			}
 			r, ty := t.expr(x.Rhs[0], dw)
-			if ty != tyInt && ty != tyU64 && ty != tyU8 && ty != tyBool && ty != tyBytes && ty != tyF64 && ty != tyU32 {
+			if ty != tyInt && ty != tyU64 && ty != tyU8 && ty != tyBool && ty != tyBytes && ty != tyF64 && ty != tyU32 && ty != tyI64s && ty != tyU64s && ty != tyF64s {
 				gsDie(s, "type of defined variable")
 			}
 			if _, shadow := t.outer[id.Name]; shadow {
